@@ -112,9 +112,10 @@ B_Poll(tag) ==
 
 ---------------------------------------------------------------------------
 \* H: the per-head scan (one critical section under pendingMu, containing RPC calls)
+\* The scan takes the oldest emitted head; scanning the last emitted head once more is harmless and allowed.
 H_Head(n) ==
-    /\ hs = Nil /\ Len(hq) > 0 /\ n = Head(hq)
-    /\ hq' = Tail(hq)
+    /\ hs = Nil
+    /\ IF Len(hq) > 0 THEN n = Head(hq) /\ hq' = Tail(hq) ELSE n = pl /\ hq' = hq
     /\ hs' = [h |-> n, seen |-> {}, fwd |-> Nil, start |-> pending]
     /\ UNCHANGED <<chain, cfg, pending, tried, pl, lq, rs, fwd, life>>
 
